@@ -25,7 +25,11 @@ pub fn mk_id(len: usize, k: u64) -> u64 {
 const ID_LEN_WEIGHTS: [u32; 8] = [10, 7, 4, 4, 1, 1, 1, 1];
 
 pub fn gen_fresh_id(t: &mut Tape, used: &mut Vec<u64>) -> u64 {
-    let len = t.weighted(&ID_LEN_WEIGHTS) + 1;
+    gen_fresh_id_max(t, used, 8)
+}
+
+pub fn gen_fresh_id_max(t: &mut Tape, used: &mut Vec<u64>, max_len: usize) -> u64 {
+    let len = t.weighted(&ID_LEN_WEIGHTS[..max_len.clamp(1, 8)]) + 1;
     let mut k = 1 + t.below(100) as u64;
     loop {
         let id = mk_id(len, k);
@@ -79,11 +83,13 @@ pub struct SpecOpts {
     pub globals: bool,
     pub max_elems: usize,
     pub builtins: bool,
+    /// longest id in bytes (8 = no restriction); with `short_ids_only` the macro-derived RichSpec (4-byte ids) is not chosen either
+    pub max_id_len: usize,
 }
 
 impl Default for SpecOpts {
     fn default() -> Self {
-        SpecOpts { globals: true, max_elems: 24, builtins: true }
+        SpecOpts { globals: true, max_elems: 24, builtins: true, max_id_len: 8 }
     }
 }
 
@@ -95,12 +101,12 @@ pub fn gen_spec(t: &mut Tape, o: SpecOpts) -> SpecTable {
     let mut roots = 0;
     let mut globals = 0;
     // first: a root master
-    let id = gen_fresh_id(t, &mut used);
+    let id = gen_fresh_id_max(t, &mut used, o.max_id_len);
     elems.push(Elem { id, ty: Ty::Master, path: vec![], name: "E0".into() });
     depth.push(0);
     roots += 1;
     for i in 1..n {
-        let id = gen_fresh_id(t, &mut used);
+        let id = gen_fresh_id_max(t, &mut used, o.max_id_len);
         let masters: Vec<usize> = (0..elems.len()).filter(|&j| elems[j].ty == Ty::Master && depth[j] < 5).collect();
         let ty = if t.chance(2, 5) { Ty::Master } else { *t.pick(&[Ty::U, Ty::I, Ty::S, Ty::B, Ty::F]) };
         let kind = if o.globals { t.weighted(&[40, 4, 5, 6]) } else { t.weighted(&[40, 4]) };
@@ -644,7 +650,7 @@ pub fn rich() -> Rc<SpecTable> {
 
 /// 1 in 4 cases use the macro-derived RichSpec, the others a generated DynSpec (installed as current).
 pub fn gen_spec_choice(t: &mut Tape, o: SpecOpts) -> SpecChoice {
-    if t.chance(1, 4) {
+    if t.chance(1, 4) && o.max_id_len >= 4 {
         SpecChoice::Rich(rich())
     } else {
         let s = Rc::new(gen_spec(t, o));
